@@ -250,4 +250,9 @@ def check(ctx):
         check_lifetime_sweep(ctx, cfg)
         check_length_relating_impls(ctx, cfg)
         check_tuple_impls(ctx, cfg)
+        # "converting to a .. flattened array of the wrong length": the by-value unflatten relates its lengths by a rounding-down division only, so
+        # for a length that is not a multiple the refusal is the size comparison in front of the reinterpretation, not the type checker - that
+        # it is still there (C11.E, the domain clause) is what stands in for the type error
+        from . import c11 as _c11
+        _c11.check_owned(ctx, cfg)
     check_corpus(ctx)
